@@ -9,7 +9,7 @@
     [-1] = None, [-2] = the call panicked, booleans 0/1. *)
 From Verif Require Import Base.Prelude Base.Enc Spec.ShortMsgObs Model.ShortMsg Model.PerChannel Model.Factory Model.CC14
   Model.Nrpn Model.Polling Spec.Canon Spec.MidiTable Spec.ScannerSpec Spec.CC14Spec Spec.NrpnSpec Spec.PollMonitor Spec.ConstSpec
-  Generated.CtrlConsts.
+  Generated.CtrlConsts Generated.NewtypeTables Base.Cfg Model.Newtypes.
 Open Scope Z_scope.
 
 Record verdict : Type := mkV { v_agree : bool; v_holds : bool; v_model : list Z }.
@@ -46,6 +46,114 @@ Fixpoint dec_cc14ops (l : list Z) : list cc14op :=
       (if Z.eqb k 2 then CReset else CFeed (op_bytes k a b c)) :: dec_cc14ops t
   | _ => []
   end.
+
+(** * restricted integer types: C04 / C05 (instances from the regenerated tables) *)
+Definition dec_big (neg l3 l2 l1 l0 : Z) : Z :=
+  let m := l3 * 79228162514264337593543950336 + l2 * 18446744073709551616 + l1 * 4294967296 + l0 in
+  if Z.eqb neg 1 then - m else m.
+
+Definition enabled_of (cfg : Z) : list String.string :=
+  if Z.eqb cfg 0 then cargo_default ++ serde_features
+  else [].
+
+Definition in_rng (r : option (Z * Z)) (z : Z) : bool :=
+  match r with Some (lo, hi) => Z.leb lo z && Z.leb z hi | None => false end.
+
+Definition is_try (k : conv_kind) : bool :=
+  match k with TryNN | TryPN | TrySPN => true | _ => false end.
+
+(** tag 40 (C04: only range membership and failure are observed) and tag 50 (C05: exact values) *)
+Definition check_conv (exact : bool) (idx : nat) (x : Z) (obs : list Z) : verdict :=
+  match nth_error conv_table idx with
+  | None => bad_record
+  | Some (k, src, dst) =>
+      if negb (in_rng (type_range newtype_defs src) x) then bad_record
+      else
+        let model := match conv_apply newtype_defs (k, src, dst) x with
+                     | Some (Some v) => [0; v]
+                     | Some None => [1; ZNONE]
+                     | None => [-99]
+                     end in
+        let dmax := match type_range newtype_defs dst with Some (_, m) => m | None => -1 end in
+        let must_fail := is_try k && negb (Z.leb 0 x && Z.leb x dmax) in
+        let holds :=
+          match obs with
+          | [0; v] => negb must_fail && in_rng (type_range newtype_defs dst) v &&
+                      (if exact then Z.eqb v x else true)
+          | [1; _] => must_fail
+          | _ => false
+          end in
+        let agree := if exact then listZ_eqb obs model
+                     else match obs, model with
+                          | [a; _], [b; _] => Z.eqb a b
+                          | _, _ => false
+                          end in
+        mkV agree holds model
+  end.
+
+Definition nt_at (tidx : nat) : option (String.string * String.string * N) := nth_error newtype_defs tidx.
+
+(** tag 41: the checked constructor in a feature configuration *)
+Definition check_new (cfg : Z) (tidx : nat) (v : N) (obs : list Z) : verdict :=
+  match nt_at tidx with
+  | Some (_, _, m) =>
+      let model := match nt_new new_cfg_guards (enabled_of cfg) m v with
+                   | Ok x => [zN x] | Panic => [ZPANIC] end in
+      verdict_of obs model (if N.leb v m then [zN v] else [ZPANIC])
+  | None => bad_record
+  end.
+
+(** tag 42: FromStr.  Specification: exactly the unsigned decimal numerals (digits only,
+    optionally preceded by '+') whose value is in range *)
+Definition is_digit (c : N) : bool := N.leb 48 c && N.leb c 57.
+Definition numeral_value (s : list N) : option Z :=
+  let ds := match s with 43%N :: t => t | _ => s end in
+  if Nat.ltb 0 (length ds) && forallb is_digit ds
+  then Some (fold_left (fun acc c => 10 * acc + (zN c - 48)) ds 0)
+  else None.
+
+Definition check_parse (tidx : nat) (s : list N) (obs : list Z) : verdict :=
+  match nt_at tidx with
+  | Some (_, r, m) =>
+      let pmax := match prim_range r with Some (_, hi) => hi | None => -1 end in
+      let model := match nt_from_str pmax m s with Some v => [1; zN v] | None => [0; ZNONE] end in
+      let spec := match numeral_value s with
+                  | Some v => if Z.leb v (zN m) then [1; v] else [0; ZNONE]
+                  | None => [0; ZNONE]
+                  end in
+      verdict_of obs model spec
+  | None => bad_record
+  end.
+
+(** tag 43: MIN / MAX / Default *)
+Definition check_consts (tidx : nat) (obs : list Z) : verdict :=
+  match nt_at tidx with
+  | Some (_, _, m) => verdict_of obs [0; zN m; 0] [0; zN m; 0]
+  | None => bad_record
+  end.
+
+(** tag 51: Display prints the decimal value; parsing it back is the identity *)
+Definition check_show (tidx : nat) (v : N) (obs : list Z) : verdict :=
+  match nt_at tidx with
+  | Some (_, r, m) =>
+      let pmax := match prim_range r with Some (_, hi) => hi | None => -1 end in
+      let txt := show v in
+      let model := map zN txt ++ [match nt_from_str pmax m txt with Some x => zN x | None => ZNONE end] in
+      (* independent reading: the digits denote v, no leading zero unless v = 0, re-parse gives v *)
+      let digits := firstn (length obs - 1) obs in
+      let ok_digits :=
+        Nat.ltb 0 (length digits) && forallb (fun c => Z.leb 48 c && Z.leb c 57) digits &&
+        Z.eqb (fold_left (fun acc c => 10 * acc + (c - 48)) digits 0) (zN v) &&
+        (Nat.eqb (length digits) 1 || negb (Z.eqb (hd 0 digits) 48)) in
+      mkV (listZ_eqb obs model) (ok_digits && Z.eqb (last obs ZNONE) (zN v)) model
+  | None => bad_record
+  end.
+
+(** tag 52: equality and ordering agree with the numeric value *)
+Definition check_ord (a b : N) (obs : list Z) : verdict :=
+  let spec := [zb (N.ltb a b); zb (N.eqb a b); zb (N.leb a b); zb (N.ltb b a);
+               (if N.ltb a b then 0 else if N.eqb a b then 1 else 2); zb (N.eqb a b)] in
+  verdict_of obs spec spec.
 
 (** * short messages: C01 / C02 / C03 / C06 (encoders in Spec/ShortMsgObs.v) *)
 (** tag 10: from_bytes for every factory implementation *)
@@ -675,6 +783,15 @@ Definition check (tag : Z) (inp obs : list Z) : verdict :=
           (Nat.eqb (length obs) 46 && negb (existsb (Z.eqb ZPANIC) obs) && listZ_eqb acc1 acc2 &&
            listZ_eqb by1 (enc_bytes b1) && listZ_eqb by2 (enc_bytes b2))
           model
+  | 40, [cfg; idx; neg; l3; l2; l1; l0] =>
+      check_conv false (Z.to_nat idx) (dec_big neg l3 l2 l1 l0) obs
+  | 50, [cfg; idx; neg; l3; l2; l1; l0] =>
+      check_conv true (Z.to_nat idx) (dec_big neg l3 l2 l1 l0) obs
+  | 41, [cfg; tidx; v] => check_new cfg (Z.to_nat tidx) (nz v) obs
+  | 42, tidx :: chars => check_parse (Z.to_nat tidx) (map nz chars) obs
+  | 43, [tidx] => check_consts (Z.to_nat tidx) obs
+  | 51, [tidx; v] => check_show (Z.to_nat tidx) (nz v) obs
+  | 52, [tidx; a; b] => check_ord (nz a) (nz b) obs
   | 60, [k; idx; x; y; z] =>
       (* C06: bytes and the accessors naming type, channel and fields; the super type
          (position 4 of the observation) belongs to C02 *)
